@@ -659,7 +659,12 @@ class EditWorld(object):
                 self.stats["skipped"] += 1
                 continue
             self.stats["ops"] += 1
-            self.check_state()
+            try:
+                self.check_state()
+            except Exception as e:
+                # the live tree is so damaged that reading it through the API / its arrays fails
+                self.problem({"sub": "tree_unreadable", "exc": type(e).__name__}, "after op %d %r the oracles could not read the tree: %s: %s" % (
+                    i, op, type(e).__name__, str(e)[:200]))
             if self.problems:
                 return
 
